@@ -9,7 +9,7 @@ PROPS = {
                 technique="runtime mutation oracle over valid ciphertexts (bit flips, truncation, extension, swaps, reflection, foreign keys)",
                 text="Every mutant of a valid ciphertext fed to the real Decrypt must give err!=nil and a nil message; unmodified controls must be accepted.",
                 note="Mutants are sampled (header bit flips exhaustive); acceptance by 128-bit collision is not a realistic false alarm."),
-    "C06": dict(engine="cryptomon", level="exploration", design="C06",
+    "C06": dict(engine="cryptomon", also=[dict(engine="msgid", race=True)], level="exploration", design="C06",
                 technique="differential runtime monitor against a specification-text reference KDF; bind message decrypted independently",
                 text="crypto.Keys/MessageKey/KeysV1/OldKeys/MessageKeyV1 compared with the reference on random inputs; EncryptBindMessage decrypted by the reference with the v1 KDF.",
                 note="The reference model is the specification; shared primitives crypto/sha1, crypto/sha256, crypto/aes."),
